@@ -1,11 +1,82 @@
 import Fix8Model.Basic.Digits
+import Fix8Model.Basic.Decimal
 import Drivers.Common
 namespace Drivers.Num
-open Fix8Model.Digits
+open Fix8Model.Digits Fix8Model.Decimal
 
 def inRange (x : Int) : Bool := decide (-2147483648 ≤ x) && decide (x ≤ 2147483647)
 
-/-- `itoa <dec>` -> hex text;  `atoi <hex>` -> value, or `ovf` when an intermediate leaves int32 -/
+/-! ### binary64 values as exact rationals (for the floating half) -/
+
+/-- number of trailing zero bits (0 for 0) -/
+def twos (n : Nat) : Nat :=
+  let rec go : Nat → Nat → Nat → Nat
+    | 0, _, acc => acc
+    | fuel + 1, n, acc => if n % 2 = 0 ∧ n ≠ 0 then go fuel (n / 2) (acc + 1) else acc
+  go (n.log2 + 1) n 0
+
+/-- `some k` when `d = 2^k` -/
+def pow2Exp? (d : Nat) : Option Nat :=
+  if d ≠ 0 ∧ 2 ^ (twos d) = d then some (twos d) else none
+
+def bitLen (n : Nat) : Nat := if n = 0 then 0 else n.log2 + 1
+
+/-- is `num / 2^k` a binary64 number (normal or subnormal, finite)? -/
+def isB64 (num k : Nat) : Bool :=
+  if num = 0 then true else
+  let s := twos num
+  let odd := num / 2 ^ s
+  -- value = odd * 2^(s-k)
+  decide (bitLen odd ≤ 53) && decide ((s : Int) - (k : Int) ≥ -1074) && decide ((bitLen odd : Int) + (s : Int) - (k : Int) ≤ 1024)
+
+/-- `mant exp` with `mant` odd (or `0 0`) for the rational `n / d` when `d` is a power of two after
+reduction, otherwise `nd` -/
+def dyadic (n : Int) (d : Nat) : String :=
+  if n = 0 then "0 0" else
+  let g := Nat.gcd n.natAbs d
+  let a := n.natAbs / g
+  let d := d / g
+  match pow2Exp? d with
+  | none => "nd"
+  | some k =>
+    let s := twos a
+    let sgn := if n < 0 then "-" else ""
+    if k = 0 then s!"{sgn}{a / 2 ^ s} {s}" else s!"{sgn}{a} -{k}"
+
+def hexToNat (s : String) : Option Nat :=
+  s.toList.foldl (fun acc c => do let a ← acc; let v ← Drivers.hexVal c; pure (a * 16 + v)) (some 0)
+
+/-- decode the bit pattern of a finite double into `(n, d)` with value `n / d`, `d` a power of two -/
+def decodeBits (b : Nat) : Option (Int × Nat) :=
+  let sign : Nat := b / 2 ^ 63 % 2
+  let e : Nat := b / 2 ^ 52 % 2048
+  let mant : Nat := b % 2 ^ 52
+  if e = 2047 then none else
+  let m : Nat := if e = 0 then mant else mant + 2 ^ 52
+  let ex : Int := (if e = 0 then 1 else (e : Int)) - 1075
+  let v : Int × Nat := if ex ≥ 0 then ((m * 2 ^ ex.toNat : Nat), 1) else ((m : Int), 2 ^ (-ex).toNat)
+  some (if sign = 1 then (-v.1, v.2) else v)
+
+/-- model text plus the exactness flag of the one rounding operation of `modp_dtoa`:
+`x` when `(value - whole) * pow10_[prec]` is exact in binary64 for the binary64 value `n / d` -/
+def dtoaLine (n : Int) (d : Nat) (prec : Int) (repr : Bool) : String :=
+  match dtoa n d prec with
+  | none => "domain"
+  | some t =>
+    let p := clampPrec prec
+    let exact := match pow2Exp? d with
+      | some k => repr && isB64 ((n.natAbs % d) * 10 ^ p) k
+      | none => false
+    Drivers.hex t ++ (if exact then " x" else " i")
+
+/-- reduce `m / 10^e` -/
+def reduceDec (v : Dec) : Int × Nat :=
+  let g := Nat.gcd v.m.natAbs (10 ^ v.e)
+  if g = 0 then (v.m, 10 ^ v.e) else (v.m / (g : Int), 10 ^ v.e / g)
+
+/-- `itoa <dec>` -> hex text;  `atoi <hex>` -> value, or `ovf` when an intermediate leaves int32;
+`dtoa <bits> <prec>` -> hex text + exactness flag | `domain`;  `atof <hex>` -> exact value as `mant exp` | `nd`;
+`rt <hex> <prec>` -> text of print(parse(text)) + exactness flag -/
 def step (line : String) : String :=
   match Drivers.words line with
   | ["itoa", v] =>
@@ -17,6 +88,26 @@ def step (line : String) : String :=
     | some s =>
       if (fastAtoiTrace s).all inRange then s!"{fastAtoi s}" else "ovf"
     | none => "bad-op"
+  | ["dtoa", b, pr] =>
+    match hexToNat b, pr.toInt? with
+    | some b, some prec =>
+      match decodeBits b with
+      | some (n, d) => dtoaLine n d prec true
+      | none => "domain"
+    | _, _ => "bad-op"
+  | ["atof", h] =>
+    match Drivers.unhex h with
+    | some s => let r := reduceDec (atof s); dyadic r.1 r.2
+    | none => "bad-op"
+  | ["rt", h, pr] =>
+    match Drivers.unhex h, pr.toInt? with
+    | some s, some prec =>
+      let r := reduceDec (atof s)
+      let repr := match pow2Exp? r.2 with
+        | some k => isB64 r.1.natAbs k
+        | none => false
+      dtoaLine r.1 r.2 prec repr
+    | _, _ => "bad-op"
   | _ => "bad-op"
 
 end Drivers.Num
